@@ -985,6 +985,9 @@ class NDCube(NDCubeBase):
         return self.__add__(value)
 
     def __sub__(self, value):
+        if isinstance(value, (np.ndarray, np.generic)) and value.dtype.kind in "ub":
+            # Minus an unsigned integer (or a boolean) is not the negative of its value.
+            value = value.astype(np.result_type(value.dtype, np.int8))
         return self.__add__(-value)
 
     def __rsub__(self, value):
